@@ -177,7 +177,7 @@ def run_read_case(ctx, suite, s, oracle=None, case=None, nontrivial=True):
 # ----------------------------------------------------------------------------------------------
 #  writer
 # ----------------------------------------------------------------------------------------------
-def write_request(g, smiles_format=False, default_element='*'):
+def write_request(g, smiles_format=False, default_element='*', name_attr='fragname'):
     """the driver request for write_graph(g): spanning tree and ring-edge order as the implementation
     derives them (networkx / CPython set order are external)"""
     import networkx as nx
@@ -192,7 +192,7 @@ def write_request(g, smiles_format=False, default_element='*'):
     ring = [tuple(e) for e in list(total - tree)]
     nodes = []
     for k, d in g.nodes(data=True):
-        text = format_atom(g, k, default_element) if smiles_format else d['fragname']
+        text = format_atom(g, k, default_element) if smiles_format else d[name_attr]
         nodes.append([k, text, list(d.get('bonding', []) or []), bool(d.get('aromatic', False))])
     edges = [[a, b, lib.order2(d.get('order', 1))] for a, b, d in g.edges(data=True)]
     for e in ring:
@@ -202,17 +202,17 @@ def write_request(g, smiles_format=False, default_element='*'):
             'succ': [[a, list(bs)] for a, bs in succ.items()], 'ring': [list(e) for e in ring]}
 
 
-def run_write_case(ctx, suite, g, case, smiles_format=False):
+def run_write_case(ctx, suite, g, case, smiles_format=False, name_attr='fragname'):
     """write_graph on the implementation and on the model; returns ('ok', text) / ('err', class)"""
     from cgsmiles.write_cgsmiles import write_graph
     try:
         with lib.quiet():
-            got = ('ok', write_graph(g, smiles_format=smiles_format))
+            got = ('ok', write_graph(g, smiles_format=smiles_format, name_attr=name_attr))
     except Exception as err:   # noqa: BLE001
         got = ('err', lib.err_class(err))
     if not ctx.oracle_only:
         try:
-            req = write_request(g, smiles_format)
+            req = write_request(g, smiles_format, name_attr=name_attr)
         except (lib.Unsupported, KeyError, ValueError):
             ctx.skip_unsupported()
             return got
